@@ -20,7 +20,7 @@ REQUIRED = ["siphon_sets_checked", "trap_sets_checked", "enabled_contract_evals"
             "realizable_true", "realizable_false", "certificates_replayed", "catalyst_firings",
             "networks_with_siphon_larger_than_2", "flows_needing_specific_order", "analyzer_checked", "history_after_borrow_checked", "borrow_vectors_nonzero",
             "scaled_search_checked", "flows_realizable_only_after_scaling", "siphon_family_4x4_checked",
-            "via_graph_without_coefficients"]
+            "via_graph_without_coefficients", "hub_and_cycle_networks"]
 ASSUMPTIONS = [
     "realizability compared only for flows whose product of (flow+1) <= 10^4 (complete search on both sides, well inside the code's default bounds)",
     "max_size argument: expected = inclusion-minimal sets among those of size <= max_size",
@@ -326,6 +326,20 @@ def random_flow_case(rng):
         if rng.random() < 0.3:
             net.append(W.rxn({"A": 1}, {"C": 1}))
             flow.append(0)
+    elif k < 0.5:  # two reactions over the same species with different coefficients, in a cycle that forces an order
+        net = [W.rxn({}, {"A": 1}), W.rxn({"A": 1}, {"B": 1}), W.rxn({"A": 1}, {"B": 2}), W.rxn({"B": 2}, {"A": 1, "C": 1}),
+               W.rxn({"B": 1}, {}), W.rxn({"C": 1}, {})]
+        flow = [1, 1, 1, 1, 1, 1]
+        if rng.random() < 0.5:
+            net[1], net[2] = net[2], net[1]
+        if rng.random() < 0.4:
+            j = rng.randrange(len(flow))
+            flow[j] = rng.choice([0, 1, 2])
+        if rng.random() < 0.5:
+            idx_ = list(range(len(net)))
+            rng.shuffle(idx_)
+            net = [net[i_] for i_ in idx_]
+            flow = [flow[i_] for i_ in idx_]
     elif k < 0.55:  # autocatalysis needing a seed
         net = [W.rxn({"A": 1, "X": 1}, {"X": 2}), W.rxn({}, {"A": 1}), W.rxn({"X": 1}, {}),
                W.rxn({}, {"X": 1})]
@@ -378,6 +392,26 @@ def run(ctx):
         if (idx // ctx.nshards) % 8 == 0:
             check_structure(ctx, [(r_, b_, a_) for r_, a_, b_ in net], tag=tag4)
     ctx.exhaustive[tag4 + (" (one quarter per seed)" if ctx.quick else "")] = not ctx.quick
+    # hub-and-cycle family: a hub species H and a cycle X1..Xn with  X(i+1) + H >> Xi  and  X1 + ... + Xn >> H, plus
+    # variants with one reaction dropped / one reactant dropped / mirrored (small siphons cover everything, a larger
+    # minimal siphon exists; for n = 4, 5 there is a gap in the sizes of the minimal sets)
+    fam_k = 0
+    for ncyc in (3, 4, 5):
+        xs = [f"X{i}" for i in range(1, ncyc + 1)]
+        base = [W.rxn({xs[(i + 1) % ncyc]: 1, "H": 1}, {xs[i]: 1}) for i in range(ncyc)] + [W.rxn({x: 1 for x in xs}, {"H": 1})]
+        variants = [base] + [base[:j] + base[j + 1:] for j in range(len(base))]
+        for j in range(ncyc):
+            v = list(base)
+            v[j] = W.rxn({xs[(j + 1) % ncyc]: 1}, {xs[j]: 1})
+            variants.append(v)
+        for v in variants:
+            for mirrored in (False, True):
+                fam_k += 1
+                if not ctx.mine(fam_k):
+                    continue
+                net = [(r_, b_, a_) for r_, a_, b_ in v] if mirrored else v
+                ctx.count("hub_and_cycle_networks")
+                check_structure(ctx, net, tag="hub-and-cycle family")
     n = 400 if ctx.quick else 8000
     for i in range(n):
         if ctx.out_of_time(0.5):
